@@ -31,6 +31,10 @@ RECIPES = [
      "    SRSmax_[j - 1] = methfunc(resphist[S:])\n    HIST_[:, :, j] = resphist[S:]\n\n\ndef _mk_par_globals_ic", "task writes its neighbour's row"),
     ("C09", "break", ["C09-R4", "C09-R5"], "pyyeti/srs.py", "        HIST = (None, None)\n", "        HIST = (None, None)\n        getresp = not getresp\n",
      "history worker selected without a history buffer"),
+    ("C09", "break", ["C09-R4b", "C09-R5"], "pyyeti/srs.py", "                HIST = (createSharedArray((N - M, H, LF)), (N - M, H, LF))\n",
+     "                HIST = (createSharedArray((N - M, H, LF)), (N, H, LF))\n", "history buffer viewed with another shape than allocated"),
+    ("C09", "break", ["C09-R5"], "pyyeti/srs.py", "                HIST = (createSharedArray((N, H, LF)), (N, H, LF))\n",
+     "                HIST = (createSharedArray((H, N, LF)), (H, N, LF))\n", "parallel history array shaped differently from the serial one"),
     # ---- behaviour-preserving
     ("C09", "neutral", [], "pyyeti/fdepsd.py", "    ASV_[0, j] = amp.max()\n    BinAmps_[j] *= ASV_[0, j]\n",
      "    top = amp.max()\n    ASV_[0, j] = top\n    row = BinAmps_[j]\n    row *= top\n", "row view and temporary in the worker"),
